@@ -7,9 +7,10 @@ W=/tmp/mutcheck/$PID.$$
 mkdir -p /tmp/mutcheck
 git -C /repo worktree add -q --detach "$W" HEAD || exit 2
 cd "$W"
+cp "$DEMO" "$W/_demo.py"; DEMO="$W/_demo.py"
 echo "--- demo on clean tree (expect 0)"
 PYTHONPATH=$W timeout 300 /venv/bin/python "$DEMO" >/tmp/mutcheck/demo_clean.$$ 2>&1; echo "exit=$?"
-git apply "$PATCH" || { echo "PATCH DOES NOT APPLY"; git -C /repo worktree remove --force "$W"; exit 2; }
+git apply --exclude=_demo.py "$PATCH" || { echo "PATCH DOES NOT APPLY"; git -C /repo worktree remove --force "$W"; exit 2; }
 echo "--- demo with change (expect non-zero)"
 PYTHONPATH=$W timeout 300 /venv/bin/python "$DEMO" >/tmp/mutcheck/demo_mut.$$ 2>&1; echo "exit=$?"; tail -3 /tmp/mutcheck/demo_mut.$$
 echo "--- existing tests with change"
